@@ -645,7 +645,9 @@ CLAIM = {
             '(C12_mixed_items_*), so the bounds carry over. formal.variance / formal.stddev on all-int lists likewise (C12_mixed_formal_ints*). On lists really mixing ints and floats builtin sum treats an int after the first float differently (the reduction to the float run is refuted there '
             'by two evaluated witnesses, C12_mixed_formal_reduction_refuted, replayed on the code by corpus/C12), so they have their own direct bound '
             '(C12_mixed_formal_*error_bound*: each uncompensated int addition costs one rounding). All bounds are additionally tested by the oracle against exact rational arithmetic '
-            'on every prefix with the explicit bound given in `rule`; the bounds are a-priori bounds, not the sharpest known constants.',
+            'on every prefix with the explicit bound given in `rule`; the bounds are a-priori bounds, not the sharpest known constants. '
+            'C12_relative_*: every completion-value bound on float lists in the literal shape of the property, C*n*u*kappa*|v| (+ underflow term), with explicit '
+            'condition numbers kappa_sum, kappa_var, kappa_fvar, under n*u <= 1/16 (implied by n <= 10^4).',
     'note': 'Trusted: Coq kernel+VM incl. primitive 63-bit integers and binary64 floats (evaluation only; no '
             'C12_exact_* theorem depends on them). The C12_float_* theorems depend on '
             'standard-library axioms: FloatAxioms.{Prim2SF_valid, SF2Prim_Prim2SF, Prim2SF_SF2Prim, add_spec, abs_spec, '
